@@ -207,3 +207,54 @@ M("rowmap-inline-drops-row", MP, "            if failonerror == 'inline':\n     
 M("rowmapmany-buffers-rows", MP, "            for outrow in rowgenerator(row):\n                yield tuple(outrow)", "            for outrow in list(rowgenerator(row)):\n                yield tuple(outrow)", ["C19"])
 M("fieldmap-errorvalue-none", MP, "                else:\n                    val = errorvalue\n            outrow.append(val)", "                else:\n                    val = None\n            outrow.append(val)", ["C19"])
 M("fieldmap-argument-ignored-when-config-set", MP, "        self.failonerror = (config.failonerror if failonerror is None\n                                else failonerror)\n        self.errorvalue = errorvalue", "        self.failonerror = (config.failonerror if not failonerror\n                                else failonerror)\n        self.errorvalue = errorvalue", ["C19"])
+
+HD = "transform/headers.py"
+FL = "transform/fills.py"
+SL = "transform/selects.py"
+RS = "transform/reshape.py"
+# ---- C12 ----------------------------------------------------------------------------------
+# (equivalent: field names are compared as text, so an int spec can never match a name)
+M("asindices-name-before-index-EQUIV", UB, "        if isinstance(s, int) and s < len(hdr):\n            indices.append(s)  # index fields from 0\n        # spec could be a field\n        elif s in flds:",
+  "        if s in flds:\n            idx = flds.index(s)\n            indices.append(idx)\n            flds[idx] = None\n        elif isinstance(s, int) and s < len(hdr):\n            indices.append(s)  # index fields from 0\n        # spec could be a field\n        elif s in flds:", ["C12"])
+M("cut-drops-short-rows", B, "        except IndexError:\n            # row is short, let's be kind and fill in any missing fields\n            yield tuple(row[i] if i < len(row) else missing for i in indices)\n\n\ndef cutout", "        except IndexError:\n            pass\n\n\ndef cutout", ["C12"])
+M("cat-matches-by-position", B, "                try:\n                    val = row[hdr.index(h)]\n                except IndexError:", "                try:\n                    val = row[outhdr.index(h)] if outhdr.index(h) < len(hdr) else row[len(row)]\n                except IndexError:", ["C12"])
+M("addfield-inserts-before-padding", B, "        self.source = stack(source, missing=missing)\n        self.field = field\n        self.value = value", "        self.source = source\n        self.field = field\n        self.value = value", ["C12"])
+M("convert-applies-to-next-index", CV, "            return tuple(transform_value(i, v)\n                         for i, v in enumerate(_row))", "            return tuple(transform_value(i, v)\n                         for i, v in enumerate(_row, 1 if len(_row) > len(hdr) else 0))", ["C12"])
+M("filldown-fills-from-previous-output", FL, "            if row[idx] == missing:\n                outrow[idx] = fill[idx]  # fill down\n            else:\n                fill[idx] = row[idx]  # new fill value", "            if row[idx] == missing:\n                outrow[idx] = fill[idx]  # fill down\n            fill[idx] = row[idx]", ["C12"])
+M("annex-no-trim-long-rows", B, "                elif lr > lh:  # handle long rows\n                    row = row[:lh]", "                elif lr > lh + 1:  # handle long rows\n                    row = row[:lh]", ["C12"])
+M("rename-index-after-name", HD, "    outhdr = [spec[i] if i in spec\n              else spec[f] if f in spec\n              else f", "    outhdr = [spec[f] if f in spec\n              else spec[i] if i in spec\n              else f", ["C12"])
+M("fillleft-cascade-broken", FL, "        outrow = list(reversed(row))\n        for i, _ in enumerate(outrow):\n            if i > 0 and outrow[i] == missing and outrow[i-1] != missing:\n                outrow[i] = outrow[i-1]", "        outrow = list(reversed(row))\n        src = list(outrow)\n        for i, _ in enumerate(outrow):\n            if i > 0 and src[i] == missing and src[i-1] != missing:\n                outrow[i] = src[i-1]", ["C12"])
+M("dicts-long-row-extra-key", UB, "        items = [(flds[i], row[i]) for i in range(len(flds))]", "        items = [(flds[i], row[i]) for i in range(len(flds))] + ([(None, row[-1])] if len(row) > len(flds) else [])", ["C12"])
+# ---- C13 ----------------------------------------------------------------------------------
+M("select-xor-inverted-for-missing", SL, "        try:\n            v = getv(row)\n        except IndexError:\n            v = missing\n        if bool(where(v)) != complement:  # XOR", "        try:\n            v = getv(row)\n        except IndexError:\n            continue\n        if bool(where(v)) != complement:  # XOR", ["C13"])
+M("tail-off-by-one", B, "        if len(cache) > n:\n            cache.popleft()", "        if len(cache) >= n and n > 1:\n            cache.popleft()", ["C13"])
+M("selectrangeopen-strict-upper", SL, "lambda v: minv <= Comparable(v) <= maxv", "lambda v: minv <= Comparable(v) < maxv", ["C13"])
+M("searchcomplement-any-vs-all", "transform/regex.py", "            test = lambda r: any(prog.search(text_type(v)) for v in getvals(r))", "            test = lambda r: all(prog.search(text_type(v)) for v in getvals(r))", ["C13"])
+M("search-row-skips-first-cell", "transform/regex.py", "        test = lambda r: any(prog.search(text_type(v)) for v in r)", "        test = lambda r: any(prog.search(text_type(v)) for v in r[1:]) if len(r) > 2 else any(prog.search(text_type(v)) for v in r)", ["C13"])
+M("selectnotin-uses-identity", SL, "lambda v: v not in value", "lambda v: not any(v is x for x in value)", ["C13"])
+M("facet-uses-selectop-is", SL, "        fct[v] = selecteq(table, key, v)", "        fct[v] = selectis(table, key, v)", ["C13"])
+M("rowslice-step-ignored", B, "    for row in islice(it, *sliceargs):\n        yield tuple(row)", "    for row in islice(it, *sliceargs[:2]):\n        yield tuple(row)", ["C13"])
+# ---- C14 ----------------------------------------------------------------------------------
+M("recast-variables-discovery-order", RS, "            variables[f] = sorted(variables[f])", "            variables[f] = list(variables[f])", ["C14"])
+M("unflatten-drops-partial-last-row", RS, "        if len(row) > 0:\n            if len(row) < period:\n                row.extend([missing] * (period - len(row)))\n            yield tuple(row)", "        if len(row) == period:\n            yield tuple(row)", ["C14"])
+M("transpose-shared-iterator", RS, "    its = [iter(source) for _ in hdr]", "    its = [iter(source)] * len(hdr)", ["C14"])
+M("melt-skips-none-values", RS, "                o.append(row[i])  # add value\n                yield tuple(o)", "                o.append(row[i])  # add value\n                if row[i] is not None or len(variables) == 1:\n                    yield tuple(o)", ["C14"])
+M("unpack-truncates-to-newfields-minus-one", "transform/unpacks.py", "            if nvals >= nunpack:\n                newvals = value[:nunpack]", "            if nvals > nunpack:\n                newvals = value[:nunpack]", ["C14"])
+M("splitdown-maxsplit-ignored", "transform/regex.py", "        for v in prog.split(value, maxsplit):\n            yield tuple(v if i == field_index", "        for v in prog.split(value):\n            yield tuple(v if i == field_index", ["C14"])
+M("fromcolumns-zip-shortest", "io/base.py", "    for row in izip_longest(*cols, **dict(fillvalue=missing)):\n        yield row", "    for row in zip(*cols):\n        yield row", ["C14", "C01"])
+# ---- C15 / C16 / C17 --------------------------------------------------------------------------------
+M("csv-write-no-newline-arg", "io/csv_py3.py", "        csvfile = io.TextIOWrapper(buf, encoding=encoding, errors=errors,\n                                   newline='')", "        csvfile = io.TextIOWrapper(buf, encoding=encoding, errors=errors)", ["C15"])
+M("appendcsv-truncates", "io/csv.py", "    source = write_source_from_arg(source, mode='ab')\n    csvargs.setdefault('dialect', 'excel')\n    appendcsv_impl(", "    source = write_source_from_arg(source, mode='ab')\n    csvargs.setdefault('dialect', 'excel')\n    csvargs.pop('quotechar', None)\n    appendcsv_impl(", ["C15"])
+M("appendpickle-header-inverted", "io/pickle.py", "def appendpickle(table, source=None, protocol=-1, write_header=False):", "def appendpickle(table, source=None, protocol=-1, write_header=None):", ["C15"])
+M("frompickle-stops-at-empty-row", "io/pickle.py", "                while True:\n                    yield tuple(pickle.load(f))", "                while True:\n                    r = tuple(pickle.load(f))\n                    if not r:\n                        break\n                    yield r", ["C15"])
+M("tojson-lines-no-newline-last", "io/json.py", "            for chunk in encoder.iterencode(rec):\n                f.write(chunk)\n            f.write('\\n')", "            for chunk in encoder.iterencode(rec):\n                f.write(chunk.replace('\\u2028', ' '))\n            f.write('\\n')", ["C15"])
+M("fromjson-lines-header-from-first-only-missing", "io/json.py", "        yield tuple(json_obj[f] if f in json_obj else missing for f in header)", "        yield tuple(json_obj[f] if f in json_obj and json_obj[f] != '' else missing for f in header)", ["C15"])
+M("teecsv-no-final-flush", "io/csv_py3.py", "                for row in it:\n                    writer.writerow(row)\n                    yield tuple(row)\n                csvfile.flush()", "                for row in it:\n                    writer.writerow(row)\n                    yield tuple(row)", ["C16"])
+M("teepickle-yields-before-write-loses-last", "io/pickle.py", "            for row in it:\n                pickle.dump(row, f, protocol)\n                yield tuple(row)", "            prev = None\n            for row in it:\n                if prev is not None:\n                    pickle.dump(prev, f, protocol)\n                prev = row\n                yield tuple(row)", ["C16"])
+M("progress-skips-row-on-report", "util/timing.py", "                batchratemean, batchratevar = \\\n                    onlinestats(batchrate, batchn, mean=batchratemean,\n                                 variance=batchratevar)\n            yield r", "                batchratemean, batchratevar = \\\n                    onlinestats(batchrate, batchn, mean=batchratemean,\n                                 variance=batchratevar)\n                if n % (2 * self.batchsize) == 0:\n                    continue\n            yield r", ["C16"])
+M("cache-serves-n-rows-only", "util/materialise.py", "            if not self.n or len(self.cache) < self.n:\n                self.cachecomplete = True", "            if not self.n or len(self.cache) <= self.n:\n                self.cachecomplete = True", ["C16"])
+M("teehtml-row-written-after-yield", "io/html.py", "                    _write_row(f, hdr, row, lineterminator, vrepr,\n                               tr_style, td_styles, truncate)\n                    yield row", "                    yield row\n                    _write_row(f, hdr, row, lineterminator, vrepr,\n                               tr_style, td_styles, truncate)", ["C16"])
+M("todb-commit-after-delete", "io/db.py", "        cursor.execute(truncatequery)\n        # just in case, close and resurrect cursor\n        cursor.close()\n        cursor = connection.cursor()", "        cursor.execute(truncatequery)\n        # just in case, close and resurrect cursor\n        cursor.close()\n        if commit:\n            connection.commit()\n        cursor = connection.cursor()", ["C17"])
+M("todb-commit-in-finally", "io/db.py", "    cursor.executemany(insertquery, it)\n\n    # finish up\n    debug('close the cursor')\n    cursor.close()\n\n    if commit:\n        debug('commit transaction')\n        connection.commit()", "    try:\n        cursor.executemany(insertquery, it)\n    finally:\n        cursor.close()\n        if commit:\n            connection.commit()", ["C17"], nth=0)
+M("todb-executemany-list-EQUIV-must-stay-green", "io/db.py", "    cursor.executemany(insertquery, it)\n\n    # finish up", "    cursor.executemany(insertquery, list(it))\n\n    # finish up", ["C17"], nth=0)
+M("appenddb-filename-no-close", "io/db.py", "        _todb(table, dbo, tablename, schema=schema, commit=commit,\n              truncate=False)\n\n    finally:\n        if needs_closing:\n            dbo.close()", "        _todb(table, dbo, tablename, schema=schema, commit=commit,\n              truncate=False)\n\n    finally:\n        if needs_closing:\n            dbo.commit()\n            dbo.close()", ["C17"])
